@@ -250,7 +250,10 @@ def _walk(e):
 def _run_algebra(spec, ctx):
     e, prows = spec["expr"], spec["prows"]
     k = geo.nrows(prows)
-    feat = _feature(e)
+    full = _feature(e)
+    # signature feature: the top-level operation only (one root cause -> one signature); the full
+    # list of ingredients goes into the detail text
+    feat = e.get("op", e.get("b", "?"))
     ext = "|ext" if k else ""
     params = build.params_points(prows)
     with ctx.lib("construct", feature=feat):
@@ -286,10 +289,11 @@ def _run_algebra(spec, ctx):
             if not _same_points(R, X):
                 bad = [v for v in R.space.keys() if not torch.equal(R.coordinates[v], X.coordinates[v])]
                 ctx.violation("composition", feat + ext, f"call {call}: result differs from the composition of "
-                              f"single-factor calls in variables {bad}")
+                              f"single-factor calls in variables {bad} (expression: {full})")
         else:
             # deterministic columns (everything not produced by a random base) must still agree
-            det = [n["var"] for n in _walk(e) if "op" not in n and n["b"] != "random"] + list(prows)
+            # (a factor that depends on a partner variable is only as deterministic as that partner)
+            det = [n["var"] for n in _walk(e) if "op" not in n and n["b"] != "random" and not n.get("dep")] + list(prows)
             bad = [v for v in det if v in R.space.keys() and not torch.equal(R.coordinates[v], X.coordinates[v])]
             if bad:
                 ctx.violation("composition", feat + ext + "|random", f"deterministic columns {bad} differ from the reference pairing")
@@ -305,8 +309,8 @@ def _run_algebra(spec, ctx):
                       f"len(sampler)={l1} after {spec['calls']} call(s) with k={k} parameter rows; a parameter-free call returns {exp_len} rows")
     d = _depth(e)
     nontrivial = d >= 2 or any(n.get("dep") for n in _walk(e) if "op" not in n) or \
-        (d >= 1 and any("op" not in n and n["b"] == "data" for n in _walk(e)) and "mul" in feat)
-    return {"nontrivial": bool(nontrivial), "classes": ["algebra", "alg-depth%d" % d, "alg-k%d" % min(k, 2)] + feat.split("+"),
+        (d >= 1 and any("op" not in n and n["b"] == "data" for n in _walk(e)) and "mul" in full)
+    return {"nontrivial": bool(nontrivial), "classes": ["algebra", "alg-depth%d" % d, "alg-k%d" % min(k, 2)] + full.split("+"),
             "summary": {"rows": len(X), "expected_len": exp_len, "k": k}}
 
 
